@@ -162,6 +162,10 @@ class ExportImport:
                 oids[ooid] = oid = self._storage.new_oid()
                 return_oid_list.append(oid)
 
+            # The object is created by this transaction: an abort must
+            # disown it like any other new object.
+            self._creating[oid] = 0
+
             if (b'blob' in data and
                     isinstance(self._reader.getGhost(data), Blob)):
                 # Blob support
